@@ -1,9 +1,137 @@
-import Oracle.Proto
-namespace Oracle.C13
+/-
+  Oracle.C13 — what Model.Marshal says for the C13 harness lines.
 
-/-- placeholder: the oracle driver for C13 is not built yet -/
+    dump <id> <tree tokens…> = x<hex>   →  m=<0|1> u=<0|1> r=<0|1> [first differing byte offset]
+         m: Model.marshal(tree) = the bytes string.dump returned
+         u: Model.unmarshal(bytes) = ok (tree, [])
+         r: Model.marshal(Model.unmarshal(bytes)) = bytes
+    load <index> x<hex> = …             →  ok | err | panic   (Model.load; panic = negative UpvalueCount reaching NewClosure)
+-/
+import Oracle.Proto
+import GoluaVerif.Model.Marshal
+namespace Oracle.C13
+open GoluaVerif Oracle
+open GoluaVerif.Model.Marshal
+
+def bytesOfHex (s : String) : Option (List UInt8) := (parseHexBytes s).map (·.toList)
+def hexOf (b : List UInt8) : String := hexOfBytes ⟨b.toArray⟩
+
+def takeTok : List String → Option (String × List String)
+  | [] => none
+  | t :: ts => some (t, ts)
+
+def parseNat? (s : String) : Option Nat := s.toNat?
+
+def parseStrTok (t : String) : Option (List UInt8) :=
+  if t.startsWith "S" then bytesOfHex (t.drop 1).toString else none
+
+def parseMany {α} (f : List String → Option (α × List String)) : Nat → List String → Option (List α × List String)
+  | 0, ts => some ([], ts)
+  | n + 1, ts => do
+    let (a, ts1) ← f ts
+    let (as, ts2) ← parseMany f n ts1
+    pure (a :: as, ts2)
+
+def parseWord (ts : List String) : Option (BitVec 32 × List String) := do
+  let (t, r) ← takeTok ts
+  let n ← parseHexNat t
+  pure (BitVec.ofNat 32 n, r)
+
+def parseLine (ts : List String) : Option (BitVec 32 × List String) := do
+  let (t, r) ← takeTok ts
+  let n ← t.toInt?
+  pure (BitVec.ofInt 32 n, r)
+
+def parseStr (ts : List String) : Option (List UInt8 × List String) := do
+  let (t, r) ← takeTok ts
+  let s ← parseStrTok t
+  pure (s, r)
+
+partial def parseConst (ts : List String) : Option (Const × List String) := do
+  let (t, r) ← takeTok ts
+  if t == "C" then
+    let (src, r) ← parseStr r
+    let (name, r) ← parseStr r
+    let (n, r) ← takeTok r
+    let (ops, r) ← parseMany parseWord (← parseNat? n) r
+    let (n, r) ← takeTok r
+    let (lines, r) ← parseMany parseLine (← parseNat? n) r
+    let (n, r) ← takeTok r
+    let (ks, r) ← parseMany parseConst (← parseNat? n) r
+    let (uv, r) ← takeTok r
+    let (rc, r) ← takeTok r
+    let (cc, r) ← takeTok r
+    let (n, r) ← takeTok r
+    let (ups, r) ← parseMany parseStr (← parseNat? n) r
+    pure (.code src name ops lines ks (BitVec.ofInt 16 (← uv.toInt?)) (BitVec.ofInt 16 (← rc.toInt?))
+      (BitVec.ofInt 16 (← cc.toInt?)) ups, r)
+  else if t.startsWith "I" then
+    let n ← (t.drop 1).toString.toInt?
+    pure (.int (BitVec.ofInt 64 n), r)
+  else if t.startsWith "D" then
+    let n ← parseHexNat (t.drop 1).toString
+    pure (.float (BitVec.ofNat 64 n), r)
+  else if t.startsWith "S" then
+    let s ← bytesOfHex (t.drop 1).toString
+    pure (.str s, r)
+  else none
+
+partial def showConst : Const → List String
+  | .int n => ["I" ++ toString n.toInt]
+  | .float b => ["D" ++ hexOfNat b.toNat 16]
+  | .str s => ["S" ++ hexOf s]
+  | .code src name ops lines ks uv rc cc ups =>
+    ["C", "S" ++ hexOf src, "S" ++ hexOf name, toString ops.length] ++ ops.map (fun w => hexOfNat w.toNat 8) ++
+    [toString lines.length] ++ lines.map (fun l => toString l.toInt) ++
+    [toString ks.length] ++ (ks.map showConst).flatten ++
+    [toString uv.toInt, toString rc.toInt, toString cc.toInt, toString ups.length] ++ ups.map (fun s => "S" ++ hexOf s)
+
+def firstDiff : List UInt8 → List UInt8 → Nat → Option Nat
+  | [], [], _ => none
+  | a :: as, b :: bs, i => if a = b then firstDiff as bs (i + 1) else some i
+  | _, _, i => some i
+
+def dumpLine (lhs rhs : String) : String :=
+  match (lhs.splitOn " ").filter (· ≠ "") with
+  | _ :: _ :: toks =>
+    match parseConst toks, bytesOfHex (rhs.drop 1).toString with
+    | some (c, []), some bs =>
+      let m := marshal c
+      let b (x : Bool) : String := if x then "1" else "0"
+      let (u, r) := match unmarshal bs with
+        | .ok (c', []) => (showConst c' == toks, marshal c' == bs)
+        | _ => (false, false)
+      "m=" ++ b (m == bs) ++ " u=" ++ b u ++ " r=" ++ b r ++
+        (match firstDiff m bs 0 with | some i => " diff@" ++ toString i | none => "")
+    | _, _ => "bad-line"
+  | _ => "bad-line"
+
+def loadLine (lhs : String) : String :=
+  match (lhs.splitOn " ").filter (· ≠ "") with
+  | [_, _, _, h] =>
+    match bytesOfHex (h.drop 1).toString with
+    | some bs =>
+      match load bs with
+      | .ok (.code _ _ _ _ _ uv _ _ _) => if uv.toInt < 0 then "panic" else "ok"
+      | .ok _ => "ok"
+      | .error .hugeAlloc => "crash"
+      | .error _ => "err"
+    | none => "bad-line"
+  | _ => "bad-line"
+
+def line (l : String) : String :=
+  match l.splitOn " = " with
+  | [lhs, rhs] =>
+    if lhs.startsWith "dump " then dumpLine lhs rhs
+    else if lhs.startsWith "load " then loadLine lhs
+    else "?"
+  | [lhs] => if lhs.startsWith "load " then loadLine lhs else "?"
+  | _ => "?"
+
 def main (_args : List String) : IO UInt32 := do
-  IO.eprintln "oracle mode c13: not built"
-  return 2
+  let stdin ← IO.getStdin
+  let stdout ← IO.getStdout
+  forEachLine stdin fun l => stdout.putStrLn (line l)
+  return 0
 
 end Oracle.C13
